@@ -7,14 +7,14 @@ sys.path.insert(0, os.path.dirname(os.path.abspath(__file__)))
 
 VERIF = os.path.dirname(os.path.dirname(os.path.abspath(__file__)))
 
-TB = "trusted: rustc nightly MIR construction, the mirfacts extractor, the Python rule engine"
+TB = "trusted: rustc nightly MIR construction, the mirfacts extractor, the Python rule engine; a rule that does not recognise the construct it reasons about (code restructured beyond its recogniser) reports UNDECIDED in the evidence instead of a verdict; private helpers and closure arguments are expanded at their call sites before the rules run"
 
 CHECKS = {
     "C01": ("proof", "linearity typestate (ownership dataflow) of error-carrying values over type-checked MIR",
             "For every Deserr impl of the library (generic MIR: all V, E, payloads, answer sequences) and every derive-catalogue entry, no value that may hold an error is dropped, overwritten, duplicated or leaked: it reaches the return place, a report site's self_/other, or an error-preserving call. Hence Ok implies no report and Err carries every report once.",
             TB + "; std Result/Try adaptors pass errors on; the error type keeps what it is handed; derived code per catalogue entry; unwinding ignored", "§5 C01"),
     "C02": ("proof", "CFG rules on MIR: loop exits, fault-branch rejoin, late accumulator test, placement of unconditional stops",
-            "Decides the control-structure clause for all inputs: in the keep-going graph (Break edges removed) payload loops end only on exhaustion, a failing child/key/conversion never skips examination its success reaches, the accumulator is inspected only after all examination, unconditional stops sit before or after the examination.",
+            "Decides the control-structure clause for all inputs: in the keep-going graph (Break edges removed) payload loops end only on exhaustion, a failing child/key/conversion never skips examination its success reaches, the accumulator is inspected only after all examination and is only ever replaced by the answer it was handed to (never reset), unconditional stops sit before or after the examination.",
             TB + "; which positions are faults is C05/C06; derived code per catalogue entry", "§5 C02"),
     "C03": ("proof", "path-sensitive stop-region walk from every Break edge / collapsed report site over MIR",
             "From every Break edge and after every take_cf_content-collapsed site all feasible paths return Err(that error) without loop, child call, iterator step, payload access, user call or new report (merges only as hand-over). Built-in error types answer Break only.",
@@ -46,34 +46,34 @@ CHECKS["C15"] = ("proof", "effect-commutativity of map loops over MIR: allowed i
                  TB + "; the order of reports inside an accumulated error may differ (statement says set); derived code per catalogue entry", "§5 C15")
 
 CHECKS["C16"] = ("proof", "generator-level rules over the MIR of the proc-macro crate (merge guards, parser routing, reader loops, shape dispatch, panic census) + compile-fail witnesses with compiling twins",
-                 "For all derive inputs: single-valued attributes are only set under a dominating 'already set => Err' test on a witness that merge maintains, parsers write attributes only through merge, every #[deserr] attribute is parsed and merged with `?`, unknown names / rename_all values / trailing tokens return Err, validate_container_attributes rejects the listed combinations and dominates all use, unsupported shapes lead only to compile errors, the macro's panic sites are discharged. 100 (quick) / 320 (thorough) poisoned derive inputs must be rejected by a derive-issued diagnostic while their twins compile.",
+                 "For all derive inputs: single-valued attributes are only set under a dominating 'already set => Err' test on a witness that merge maintains, parsers write attributes only through merge, every #[deserr] attribute is parsed and merged with `?`, unknown names / rename_all values / trailing tokens return Err, validate_container_attributes rejects the listed combinations and dominates all use, unsupported shapes lead only to compile errors, the macro's panic sites are discharged. About 120 (quick) / 600 (thorough) poisoned derive inputs must be rejected by a derive-issued diagnostic while their twins compile; the witnesses are the part of the verdict that does not depend on how the parsers are written: while all of them are rejected, a complaint of a generator-level rule is recorded as UNDECIDED (parsers restructured), when one is accepted the rule findings say where.",
                  TB + "; rustc's verdict on the witness programs; syn invariants (named fields have identifiers, parse_quote! of fixed templates); decides the listed causes, not every conceivable unsupported input", "§5 C16")
 
 CHECKS["C05"] = ("other", "dispatch/table agreement, cast and callee allow-lists, provenance of Ok payloads and of format arguments over the MIR of the 30 scalar impls",
-                 "Decides three structural clauses for every scalar impl: the Value kinds with an arm equal the accepted list of the single kind report on the fall-through arm; no lossy conversion exists and every integer/NonZero Ok is or_else(TryFrom::<Self>::try_from(the matched payload)) (bool/String unchanged, () only on null, char only when the second next() is None, floats only cast the payload); the domain report's format arguments are the payload and the rustc-evaluated constant <Self>::MAX / MIN of the right arm, NonZero zero arms are guarded by == 0. Numeric exactness is then core's TryFrom (trusted).",
+                 "Decides three structural clauses for every scalar impl: the Value kinds with an arm equal the accepted list of the single kind report on the fall-through arm; no lossy conversion exists and every integer/NonZero Ok value comes out of a checked conversion (TryFrom / NonZero::new) applied to the matched payload itself, no hand-made Ok value exists on those arms (bool/String unchanged, () only on null, char only when the second next() is None, floats only cast the payload); the domain report of each arm (in a closure of that arm or on the arm itself) has the payload and the rustc-evaluated constant <Self>::MAX / MIN among its format arguments, NonZero zero payloads are rejected by a report of their own (== 0 guard or literal-0 pattern). Numeric exactness is then core's TryFrom (trusted).",
                  TB + "; core TryFrom/`as` semantics; message wording not decided; 64-bit usize", "§5 C05")
 
 CHECKS["C19"] = ("other", "decision tables of the six pointer functions extracted from MIR and compared with the only tables satisfying the statement (structural induction)",
-                 "push_key/push_index add exactly one Key/Index node with prev = self and the given key/index; to_owned walks from self, unconditionally pushes one matching component per node, follows prev, stops at Origin and reverses exactly once; is_origin is the Origin discriminant test; last_field = {Origin: None, Key: Some(key), Index: recurse}; first_field = {Origin: None, Index: recurse, Key: recurse.or(Some(key))}.",
-                 TB + "; std Vec::push / rev+collect / Option::or semantics; other shapes of these functions are reported as cannot-establish", "§5 C19")
+                 "push_key/push_index add exactly one Key/Index node with prev = self and the given key/index; to_owned walks from self in a loop over the variant, adds exactly one matching component per Key / Index node (both kinds with the same method on the same collection), follows prev, stops at Origin and reverses exactly once (never when prepending); is_origin is the Origin discriminant test; last_field = {Origin: None, Key: Some(key), Index: recurse}; first_field = {Origin: None, Index: recurse, Key: recurse.or(Some(key))}; a first_field / last_field without loop, recursion or call into the library looks at a bounded prefix only and is reported; loop or iterator formulations of them are UNDECIDED.",
+                 TB + "; std Vec::push / rev+collect / Option::or semantics; other formulations of these functions are reported as UNDECIDED, not as violations", "§5 C19")
 
 CHECKS["C17"] = ("other", "dataflow of the `kinds` parameter through copy/sort/dedup, injectivity of the rank table, purity of the helpers, strict-suffix recursion, symbolic extraction of the slice-pattern decision table — over MIR",
-                 "Decides clause 1 and the fallback: the kinds list is only copied, the copy is sorted with sort_by_key(order) where `order` maps the eight kinds to eight distinct ranks, deduplicated, tested for emptiness (fallback constant) and handed to description_rec; the helpers read no statics; single_description has eight distinct phrases with Float = 'a number'; every recursive call passes a strict suffix. Hence the phrase is a function of the set of kinds. The decision table of description_rec (which prefixes become 'a number' / 'an integer' / a single name, and how many kinds each step consumes) is extracted by a symbolic walk and compared with the statement's table on all 256 canonical lists; only the joining punctuation is not decided.",
-                 TB + "; std stable sort / dedup semantics; the joining punctuation (', ', ' or ', ', or ') is run-time string building (not decided)", "§5 C17")
+                 "Decides clause 1 and the fallback: the kinds list is only copied, the copy is sorted with sort_by_key(order) where `order` maps the eight kinds to eight distinct ranks, deduplicated, tested for emptiness (fallback constant) and handed to description_rec; the helpers read no statics; single_description has eight distinct phrases with Float = 'a number'; every recursive call passes a strict suffix. Hence the phrase is a function of the set of kinds. The decision table of description_rec (which prefixes become 'a number' / 'an integer' / a single name, and how many kinds each step consumes) is extracted by a symbolic walk and compared with the statement's table on all 256 canonical lists; the joiner table ('a', 'a or b', 'a, b, or c') is extracted over (rest empty?, items written in {0, 1, >= 2}) and compared (C17.JOIN).",
+                 TB + "; std stable sort / dedup semantics; a sort key computed by a closure with arithmetic, or a description that is not recursive over slice patterns, is UNDECIDED", "§5 C17")
 CHECKS["C18"] = ("other", "symbolic interval walk of the length dispatch + callee identity / argument provenance of the iterator chain and its three closures — over MIR",
-                 "The budget table extracted from the comparison tree on received.len() equals {0-3: none, 4-7: 1, 8-12: 2, 13-17: 3, 18-24: 4, 25+: 5}; candidates are accepted.iter() unfiltered and in order, the metric is strsim::damerau_levenshtein(received, candidate), kept iff distance <= that budget, chosen by min_by(d1.cmp(d2)) (first minimum); None gives the empty string and Some names exactly that candidate.",
+                 "The budget table extracted from the comparison tree on received.len() equals {0-3: none, 4-7: 1, 8-12: 2, 13-17: 3, 18-24: 4, 25+: 5}; candidates are accepted.iter() unfiltered and in order, the metric is strsim::damerau_levenshtein(received, candidate), kept iff distance <= that budget, chosen by min_by(d1.cmp(d2)) (first minimum); None gives the empty string and Some names exactly that candidate. For other formulations: the only metric is strsim::damerau_levenshtein, nothing selects a last / maximum, no filter ignores the distance, an explicit loop replaces its best candidate only on a strictly smaller distance; the rest is UNDECIDED.",
                  TB + "; strsim's metric and std's min_by tie rule are trusted; len is bytes", "§5 C18")
 
 CHECKS["C13"] = ("other", "variant tables of the four sibling bridge functions extracted from MIR and cross-checked (sibling agreement), incl. the ordered number ladder",
                  "kind(j) names the same variant as into_value(j) for all six JSON variants, with the number ladder u64 -> Integer, i64 -> NegativativeInteger, f64 -> Float in that order and each payload being the value just obtained; Value::kind is the identity table; both Value -> serde_json::Value maps invert into_value on variant names and move payloads unchanged (integers via Number::from, floats via Number::from_f64); arrays/objects are rebuilt element by element in order; the Deserr impl can only fail by itself on from_f64 == None.".replace("Negativative", "Negative"),
                  TB + "; serde_json::Number semantics (from / as_* are lossless inverses, parsed documents hold finite floats) - document equality follows only under these; -0.0 and precision not decided", "§5 C13")
 
-CHECKS["C20"] = ("proof", "callee allow-list, branch-source rule and argument/result provenance over the MIR of the extractor bodies (features actix-web and axum enabled; async body before lowering)",
+CHECKS["C20"] = ("proof", "value-flow composition analysis (which call results can reach deserialize's argument, the wrapped success, every error), foreign-callee rule and branch-source rule over the MIR of the extractor bodies (features actix-web and axum enabled; async body before lowering)",
                  "For all requests: each extractor only calls the framework's own extractor, deserr::deserialize::<T, serde_json::Value, E>, its wrapper constructor and ?/poll plumbing, and only branches on their outcomes; the framework extractor receives the request / query string unchanged, deserialize receives exactly the extracted document, Ok is exactly the wrapped deserr value, every error is the framework's or deserr's own value passed on through `?`/From; JsonError answers 400 with its message as body in both frameworks; the axum rejection wraps and delegates per variant.",
                  TB + "; the frameworks' own extractors, conversions and IntoResponse impls are trusted (content-type handling, limits not analysed)", "§5 C20")
 
 CHECKS["C14"] = ("other", "dependence (taint through format arguments and helper calls) and decision-table rules over the MIR of the two built-in error types and their helpers",
-                 "Decides dependence and structure, not wording: per ErrorKind arm of JsonError::error and QueryParamError::error the message's format arguments depend on every field the arm binds and on the location description of this call's location; unknown key/value messages call did_you_mean(key|value, accepted) and list all of accepted; arity messages state the length and quote the whole sequence; location rendering is {Origin: nothing, Key: ancestors then .key, Index: ancestors then [index]} with the query variant omitting the separator exactly under the origin; kind and quoted text come from the same value; foreign errors become Unexpected{their text} at the merge location; all answers are Break.",
+                 "Decides dependence and structure, not wording: per ErrorKind arm of JsonError::error and QueryParamError::error the message's format arguments depend on every field the arm binds and on the location description of this call's location; unknown key/value messages call did_you_mean(key|value, accepted) and list all of accepted; arity messages state the length and quote the whole sequence; the text rendered per step is extracted by path enumeration over the renderer (returned string or appended buffer alike) and must be {Origin: nothing, Key: ancestors . key, Index: ancestors [ index ]} with the query variant omitting the separator exactly under the origin; kind and quoted text come from the same value; foreign errors become Unexpected{their text} at the merge location; all answers are Break.",
                  TB + "; std formatting prints every argument; wording/punctuation and re-parseability of the rendered path are not decided; 'first report of the keep-going run' follows from C03 + C04", "§5 C14")
 
 NOT_YET = {p: 'check not yet built in this revision of /verif (construction order in DESIGN.md §8); will be claimed when its rule set is armed' for p in []}
